@@ -361,6 +361,8 @@ impl PhysicalOperator for MemoryTableExec {
         };
 
         let stream = stream::iter(batches.into_iter().map(Ok));
+        #[cfg(qe_verif)]
+        let stream = crate::verif::sched::yielding(stream, "scan.batch");
         Ok(Box::pin(stream))
     }
 
